@@ -319,7 +319,37 @@ class FakeTask:
 MODES = ("repeatingProducer", "plainProducer", "earlierStage", "noCheck")
 
 
+# mirror of ShapeProducers in spec/Repeating.tla: the observer's references in order, (stage, name, alive at stageIn)
+SHAPES = {
+    "one": [(1, "Simulate", True)],
+    "two": [(1, "Simulate", True), (1, "Analyse", True)],
+    "sameNameEarlierLast": [(1, "Simulate", True), (0, "Simulate", False)],
+    "sameNameEarlierFirst": [(0, "Simulate", False), (1, "Simulate", True)],
+    "twoAndEarlier": [(1, "Simulate", True), (0, "Simulate", False), (1, "Analyse", True), (0, "Analyse", False)],
+    "earlierOnly": [(0, "Simulate", False)],
+}
+
+
+def flowir_for_shape(cfg):
+    """plain producers in stages 0/1 and the repeating observer stage1.Monitor that references them in the given order"""
+    prods = SHAPES[cfg["shape"]]
+    comps = []
+    for stage, name, _ in sorted(set(prods)):
+        comps.append({"name": name, "stage": stage, "command": {"executable": "echo", "arguments": "p"}})
+    if not any(stage == 0 for stage, _, _ in prods):
+        comps.insert(0, {"name": "Setup", "stage": 0, "command": {"executable": "echo", "arguments": "s"}})     # stages are numbered from 0
+    refs = ["stage%d.%s:ref" % (stage, name) for stage, name, _ in prods]
+    obs = {"name": "Monitor", "stage": 1, "command": {"executable": "echo", "arguments": " ".join(refs)}, "references": refs,
+           "workflowAttributes": {"repeatInterval": cfg["R"], "repeatRetries": cfg["retries0"]}}
+    if cfg["die"] > 0:
+        obs["variables"] = {"kill-after-producers-done-delay": "%d.0" % cfg["die"]}
+    comps.append(obs)
+    return {"components": comps}
+
+
 def flowir_for(cfg):
+    if cfg.get("shape", "direct") != "direct":
+        return flowir_for_shape(cfg)
     mode = cfg["mode"]
     prod = {"name": "producer", "stage": 0, "command": {"executable": "echo", "arguments": "p"}}
     if mode in ("repeatingProducer", "noCheck"):
@@ -356,16 +386,21 @@ class Runner:
         self.launches = []
 
     def job_for(self, cfg):
-        key = (cfg["R"], cfg["retries0"], cfg["die"], cfg["mode"])
+        shape = cfg.get("shape", "direct")
+        key = (cfg["R"], cfg["retries0"], cfg["die"], cfg["mode"], shape)
         if key not in self._exps:
             from . import realenv
             exp = realenv.experiment_from_flowir(flowir_for(cfg), self.scratch)
-            stage = 1 if cfg["mode"] == "earlierStage" else 0
-            job = exp.findJob(stage, "observer")
-            prods = job.producerInstances
-            if len(prods) != 1:
-                raise MachineryError("observer has %d producers" % len(prods))
-            self._exps[key] = (exp, job, prods[0])
+            if shape == "direct":
+                stage = 1 if cfg["mode"] == "earlierStage" else 0
+                job = exp.findJob(stage, "observer")
+                prods = job.producerInstances
+                if len(prods) != 1:
+                    raise MachineryError("observer has %d producers" % len(prods))
+            else:
+                job = exp.findJob(1, "Monitor")
+                prods = [exp.findJob(stage, name) for stage, name, _ in SHAPES[shape]]
+            self._exps[key] = (exp, job, prods)
         return self._exps[key]
 
     # -- observation -----------------------------------------------------------------------------------------
@@ -392,19 +427,35 @@ class Runner:
         return ev
 
     # -- environment events ------------------------------------------------------------------------------------
-    def do_env(self, a, s):
+    def finish_component(self, cs):
+        """what the controller sees and does when a plain component ends: its engine exits, the component is finished"""
+        import experiment.model.codes as codes
+        cs.engine._exitReason = codes.exitReasons["Success"]
+        cs.engine.emit_now()
+        cs.finish(codes.FINISHED_STATE)
+
+    def do_env(self, a, s, p=None):
         """perform one environment event at stamp s (the clock has been set by the caller)"""
         if a == "notify":
             self.engine.notify_all_producers_finished()
             self.notified_at = s
+        elif a == "pfinish":
+            # producer component p (index into the shape) finishes: the REAL ComponentState plumbing has to deliver
+            # notify_all_producers_finished() once the last producer that was alive at stageIn() has finished
+            self.log("pfin", s, p=p)
+            self.finish_component(self.css[p - 1])
+            self.pump_timers(W.now)
+            self.log("pfinish", s, p=p)
+            return
         elif a == "output":
             self.nout += 1
-            path = os.path.join(self.prod_dir, "out_%d.dat" % self.nout)
-            with open(path, "w") as f:
-                f.write("x")
-            ts = (BASE + _dt.timedelta(seconds=s / 2.0)).timestamp()
-            os.utime(path, (ts, ts))
-            self.files.append(path)
+            for d in self.out_dirs:
+                path = os.path.join(d, "out_%d.dat" % self.nout)
+                with open(path, "w") as f:
+                    f.write("x")
+                ts = (BASE + _dt.timedelta(seconds=s / 2.0)).timestamp()
+                os.utime(path, (ts, ts))
+                self.files.append(path)
         elif a == "extkill":
             self.engine.kill()
         else:
@@ -428,16 +479,21 @@ class Runner:
         """cfg: {R, retries0, die, mode, maxd}; sched: [{a: notify|output|extkill, s: stamp2} | {a: task, s: d} | {a: rc, s: code}]
         Returns {events, launches, final, late, errors, cut}."""
         import experiment.runtime.engine as eng
-        exp, job, prod = self.job_for(cfg)
+        exp, job, prods = self.job_for(cfg)
+        shape = cfg.get("shape", "direct")
+        prod = prods[0]
         W.reset()
         self.events, self.launches, self.files = [], [], []
         self.nout, self.notified_at = 0, None
         self.blk, self.wake, self.task = "idle", 0, None
         self.window_seen = False
         self.prod_dir = prod.workingDirectory.path
-        for fn in os.listdir(self.prod_dir):
-            os.remove(os.path.join(self.prod_dir, fn))
-        env = [dict(e) for e in sched if e["a"] in ("notify", "output", "extkill")]
+        # new output appears in the directory of every producer of the observer's stage
+        self.out_dirs = [self.prod_dir] if shape == "direct" else [j.workingDirectory.path for j in prods if j.stageIndex == job.stageIndex]
+        for d in set([self.prod_dir] + self.out_dirs):
+            for fn in os.listdir(d):
+                os.remove(os.path.join(d, fn))
+        env = [dict(e) for e in sched if e["a"] in ("notify", "pfinish", "output", "extkill")]
         checks = [e["s"] for e in sched if e["a"] == "check"]
         self.nchecks = 0
         durs = [e["s"] for e in sched if e["a"] == "task"]
@@ -457,12 +513,34 @@ class Runner:
             runner.log("launch", 2 * t.start, blk="running", wake=t.start)
             return t
 
-        engine = self.engine = eng.RepeatingEngine(job, task_generator)
+        self.css = []
+        if shape == "direct":
+            engine = self.engine = eng.RepeatingEngine(job, task_generator)
+            observer = None
+        else:
+            # the REAL ComponentState objects: producers (real Engines on lanes, never run) and the observer, whose
+            # RepeatingEngine is the one ComponentState created; only its back-end is replaced
+            import experiment.runtime.workflow as wf
+            graph = exp.experimentGraph
+            by_ref = {}
+            for j in prods:
+                if j.reference not in by_ref:
+                    by_ref[j.reference] = wf.ComponentState(j, graph)
+            self.css = [by_ref[j.reference] for j in prods]
+            observer = self.observer = wf.ComponentState(job, graph)
+            engine = self.engine = observer.engine
+            engine.taskGenerator = task_generator
+            real_notify = engine.notify_all_producers_finished
+
+            def notify_logged():
+                real_notify()
+                runner.log("notified", int(round(W.now * 2)))
+            engine.notify_all_producers_finished = notify_logged
         # transient filesystem fault: while the k-th canConsume() check lists the (output-less) producer directory the
         # directory is not there (as with a stale handle): the REAL os.listdir raises OSError inside WorkingDirectory._listdir
         wd = prod.workingDirectory
         real_listdir = wd._listdir
-        fault_mode = cfg["mode"] in ("plainProducer", "noCheck")
+        fault_mode = cfg["mode"] in ("plainProducer", "noCheck") and shape == "direct"
 
         def listdir(directory):
             if not fault_mode or os.path.realpath(directory) != os.path.realpath(runner.prod_dir):
@@ -493,11 +571,19 @@ class Runner:
         cut = False
         try:
             # before run(): stamp -1
-            self.log("blocked", -1, blk="idle", wake=0)
             W.now = -0.5
+            if observer is not None:
+                # earlier stages are over; then the controller stages the observer in
+                for (stage, name, alive), cs in zip(SHAPES[shape], self.css):
+                    if not alive and cs.isAlive():
+                        self.finish_component(cs)
+                W.pump(W.now)
+                observer.stageIn()
+                self.pump_timers(W.now)
+            self.log("blocked", -1, blk="idle", wake=0)
             while env and env[0]["s"] == -1:
                 e = env.pop(0)
-                self.do_env(e["a"], e["s"])
+                self.do_env(e["a"], e["s"], e.get("p"))
             W.now = 0.0
             self.pump_timers(0.0)
             engine.run()
@@ -518,7 +604,7 @@ class Runner:
                         e = env.pop(0)
                         if e["s"] != 2 * t:
                             late.append(e)
-                        self.do_env(e["a"], 2 * t)
+                        self.do_env(e["a"], 2 * t, e.get("p"))
                     continue
                 self.window_seen = False
                 if kind == "sleep":
@@ -556,7 +642,7 @@ class Runner:
                         s2 = int(round(eff * 2))
                         if s2 != e["s"]:
                             late.append(e)
-                        self.do_env(e["a"], s2)
+                        self.do_env(e["a"], s2, e.get("p"))
                 W.now = float(end)
                 if task is not None:
                     task._finish()
@@ -577,6 +663,8 @@ class Runner:
             except AttributeError:
                 pass
             W.stop_thread()
+            if observer is not None and observer.repeatingDisposable is not None:
+                observer.repeatingDisposable.dispose()
         # let the emission pipeline drain (same virtual instant and the following interval tick)
         W.pump(W.now + 6.0)
         sub.dispose()
@@ -585,4 +673,6 @@ class Runner:
                "final": final, "late": late, "unused": env, "errors": list(W.errors), "cut": cut,
                "finished_emissions": finished}
         W.queue = []
+        self.css = []
+        self.observer = None
         return res
